@@ -23,7 +23,7 @@ import traceback
 ROOT = os.path.dirname(os.path.dirname(os.path.abspath(__file__)))
 sys.path.insert(0, ROOT)
 
-QUICK_TIMEOUT_MS = 20000
+QUICK_TIMEOUT_MS = 10000
 THOROUGH_TIMEOUT_MS = 120000
 
 
@@ -92,7 +92,7 @@ def _discharge_idx(i):
     from pyvc.solve import discharge, smt2_of
     eng, obls, tmo, tier = _CTX
     o = obls[i]
-    r = discharge(eng, o, tmo)
+    r = discharge(eng, o, tmo, fallback=(tier == "thorough"))
     rec = dict(name=o.name, kind=o.kind, status=r["status"], time=r["time"], backend=r["backend"],
                labels=o.labels, note=o.note)
     if r["status"] == "sat":
@@ -250,6 +250,18 @@ def check(prop: str, tier: str) -> int:
         if b.get("failure"):
             violations.append((f"{prop}/bounded:{b['name']}", dict(labels=["bounded"], model=b["failure"], smt2="",
                                                                    native=b["failure"])))
+
+    # an obligation the solver left open (typically a counter-model it cannot construct): run the
+    # property's native harness as the bounded stand-in; a concrete native failure is a violation
+    open_obls = list(undecided)
+    if open_obls and not violations and not broken:
+        first = open_obls[0].split(": solver answered")[0].split(": ")[0]
+        rep = run_replay(prop, dict(property=prop, obligation=first, path_labels=[], model=None))
+        if rep.get("reproduced"):
+            violations.append((first, dict(labels=["undecided-by-solver", "bounded-native-stand-in"], model=None,
+                                           smt2=open_obls[0], native=rep.get("detail"))))
+            undecided = [u for u in undecided if u not in open_obls] + \
+                [f"(solver left {len(open_obls)} obligation(s) open; the native stand-in reproduced a failure)"]
 
     # ---- report
     os.makedirs(os.path.join(ROOT, "replays", prop), exist_ok=True)
